@@ -248,6 +248,17 @@ def run_shard(spec):
             ast["abstract"].append("abs1")
             ast["items"].append({"kind": "multisection", "name": "*", "attribute": "absslot", "required": False,
                                  "handler": None, "type": "abs1"})
+        if rng.random() < 0.15:
+            # a default that its datatype refuses (legal: defaults are converted when they are
+            # used, zone U5): loads that need it fail, loads that supply the key do not -- on an
+            # aged schema exactly as on a fresh one
+            cands = [it for cont in [ast] + ast["types"] for it in cont["items"]
+                     if it["kind"] == "key" and it["name"] != "+" and it.get("default") is not None
+                     and it.get("datatype") in gen.BAD]
+            if cands:
+                it = rng.choice(cands)
+                it["default"] = rng.choice(gen.BAD[it["datatype"]])
+                counters["schema:unconvertible-default"] += 1
         sm = refload.compile_schema(ast)
         packages = {}
         known = [t["name"] for t in ast["types"]]
